@@ -1,6 +1,6 @@
 (* C16 — cycle analysis: components, cycles and the chosen leader are right. *)
 From Coq Require Import List String NArith Bool Arith.
-From Pegen Require Import Base.StrUtil Analysis.Scc Proofs.LeaderProofs Proofs.SccBounded Proofs.SccBounded4.
+From Pegen Require Import Base.StrUtil Analysis.Scc Proofs.LeaderProofs Proofs.SccBounded Proofs.SccBounded4 Proofs.SccCheck.
 Import ListNotations.
 
 (* Unbounded, for every graph, every component list and every iteration order (the adjacency
@@ -63,3 +63,31 @@ Example C16_demo_refuse :
   compute_left_recursives [("a", ["b"; "c"]); ("b", ["a"; "c"]); ("c", ["a"; "b"])]%string = LRValueError.
 Proof. vm_compute. reflexivity. Qed.
 Print Assumptions C16_demo_refuse.
+
+(* Unbounded, by translation validation: for ANY graph (any size), any vertex list and any list of
+   components -- in particular the ones sccutils really yields, whatever the iteration order --
+   if the decidable [scc_check] accepts them then they are exactly the classes of mutual
+   reachability, each vertex once; and if [lr_check] accepts a set of flagged vertices then these
+   are exactly the vertices lying on a cycle.  The checks are evaluated on every explored graph
+   with the components and flags the real code produced. *)
+Theorem C16_checked_components_are_exact :
+  forall g vs cs, scc_check string String.eqb g vs cs = true ->
+  NoDup (List.concat cs) /\
+  forall u w, In u vs -> In w vs ->
+    ((exists C, In C cs /\ In u C /\ In w C) <-> (path string String.eqb g u w /\ path string String.eqb g w u)).
+Proof. intros g vs cs H. exact (scc_check_sound string String.eqb String.eqb_eq g vs cs H). Qed.
+Print Assumptions C16_checked_components_are_exact.
+
+Theorem C16_checked_flags_are_exact :
+  forall g vs cs lr, scc_check string String.eqb g vs cs = true -> lr_check string String.eqb g cs lr = true ->
+  forall v, In v vs -> (In v lr <-> on_cycle string String.eqb g v).
+Proof. intros g vs cs lr H Hl. exact (lr_check_sound string String.eqb String.eqb_eq g vs cs H lr Hl). Qed.
+Print Assumptions C16_checked_flags_are_exact.
+
+Example C16_checker_accepts :
+  let g := [("a", ["b"]); ("b", ["a"; "c"]); ("c", ["c"]); ("d", [])]%string in
+  scc_check string String.eqb g ["a"; "b"; "c"; "d"]%string [["c"]; ["b"; "a"]; ["d"]]%string = true
+  /\ lr_check string String.eqb g [["c"]; ["b"; "a"]; ["d"]]%string ["a"; "b"; "c"]%string = true
+  /\ scc_check string String.eqb g ["a"; "b"; "c"; "d"]%string [["c"]; ["b"]; ["a"]; ["d"]]%string = false.
+Proof. vm_compute. repeat split; reflexivity. Qed.
+Print Assumptions C16_checker_accepts.
